@@ -5,6 +5,7 @@ package isaacdatabase
 import (
 	"context"
 	"fmt"
+	"strconv"
 	"strings"
 	"testing"
 
@@ -56,6 +57,8 @@ type c21iConfig struct {
 	cache  int
 	wbuf   int  // goleveldb write buffer of the producing handle (0: 64 KiB as in the first unit, so memtable flushes happen during the batch)
 	ticker bool // one body of the Center's ticker (mergePermanent + cleanRemoved) runs between the fill and the save phase
+	finish bool // the batch ends with MergeAllPermanent + cleanRemoved (without: the history ends with the last merge)
+	slices int  // the crash points of a log are split over this many work items (each produces the log itself)
 }
 
 const (
@@ -225,10 +228,12 @@ func c21iProduce(env *vfEnv, cfg c21iConfig) *c21History {
 		cx.MarkNow(fmt.Sprintf("ack-%d", w.b.height))
 	}
 
-	vfMust(db.center.MergeAllPermanent())
-	cx.MarkNow("permanent-all")
-	vfMust(db.center.cleanRemoved(0))
-	cx.MarkNow("cleaned-all")
+	if cfg.finish {
+		vfMust(db.center.MergeAllPermanent())
+		cx.MarkNow("permanent-all")
+		vfMust(db.center.cleanRemoved(0))
+		cx.MarkNow("cleaned-all")
+	}
 
 	vfSettle()
 
@@ -253,32 +258,39 @@ func TestVerifC21I(t *testing.T) {
 
 	env := vfNewEnv()
 
-	// 400 states = 409 keys of a block write database, 384 of them flushed (3 x 128) before Write(): more than
+	// 400 states = 410 keys of a block write database, 384 of them flushed (3 x 128) before Write(): more than
 	// one round (333 keys) of the startup cleaners, both for the leftover at top+1 and for those above
-	configs := []c21iConfig{
-		{name: "import-400+400-asc-journal", sizes: []int{400, 400}, order: "asc", wbuf: c21iJournalOnly},
-		{name: "import-400+400-desc-journal", sizes: []int{400, 400}, order: "desc", wbuf: c21iJournalOnly},
+	var configs []c21iConfig
+
+	switch {
+	case !r.Thorough():
+		configs = []c21iConfig{
+			{name: "import-400+400-asc-journal", sizes: []int{400, 400}, order: "asc", wbuf: c21iJournalOnly, slices: 2},
+			{name: "import-400+400-desc-journal", sizes: []int{400, 400}, order: "desc", wbuf: c21iJournalOnly, slices: 2},
+		}
+	default:
+		// NOTE work item i goes to shard i % 8: the three configurations with memtable flushes (many more crash
+		// points) are split into slices
+		configs = []c21iConfig{
+			{name: "import-400+400-asc-journal-finish", sizes: []int{400, 400}, order: "asc", wbuf: c21iJournalOnly, finish: true},
+			{name: "import-400+400-desc-journal-finish", sizes: []int{400, 400}, order: "desc", wbuf: c21iJournalOnly, finish: true},
+			{name: "import-400+400-rr-journal-finish", sizes: []int{400, 400}, order: "rr", wbuf: c21iJournalOnly, finish: true},
+			{name: "import-0+400+0-asc-journal-finish", sizes: []int{0, 400, 0}, order: "asc", wbuf: c21iJournalOnly, finish: true},
+			{name: "import-0+400+0-desc-journal-finish", sizes: []int{0, 400, 0}, order: "desc", wbuf: c21iJournalOnly, finish: true},
+			{name: "import-200+200+200-rr-journal-finish", sizes: []int{200, 200, 200}, order: "rr", wbuf: c21iJournalOnly, finish: true},
+			{name: "import-200+200+200-desc-ticker-journal-finish", sizes: []int{200, 200, 200}, order: "desc", ticker: true, wbuf: c21iJournalOnly, finish: true},
+			{name: "import-0+700-asc-ticker-journal-finish", sizes: []int{0, 700}, order: "asc", ticker: true, wbuf: c21iJournalOnly, finish: true},
+			{name: "import-0+0-asc-finish", sizes: []int{0, 0}, order: "asc", finish: true},
+			{name: "import-400+400-asc", sizes: []int{400, 400}, order: "asc", slices: 5},
+			{name: "import-400+400-desc-cache-finish", sizes: []int{400, 400}, order: "desc", cache: 512, finish: true, slices: 5},
+			{name: "import-400+400-rr-cache", sizes: []int{400, 400}, order: "rr", cache: 512, slices: 5},
+		}
 	}
 
-	if r.Thorough() {
-		configs = append(configs,
-			c21iConfig{name: "import-400+400-rr", sizes: []int{400, 400}, order: "rr"},
-			c21iConfig{name: "import-400+400-rr-cache", sizes: []int{400, 400}, order: "rr", cache: 512},
-			c21iConfig{name: "import-0+400+0-asc", sizes: []int{0, 400, 0}, order: "asc"},
-			c21iConfig{name: "import-0+400+0-desc", sizes: []int{0, 400, 0}, order: "desc"},
-			c21iConfig{name: "import-200+200+200-rr", sizes: []int{200, 200, 200}, order: "rr"},
-			c21iConfig{name: "import-200+200+200-desc-ticker", sizes: []int{200, 200, 200}, order: "desc", ticker: true},
-			c21iConfig{name: "import-0+700-asc-ticker", sizes: []int{0, 700}, order: "asc", ticker: true},
-			c21iConfig{name: "import-0+0-asc", sizes: []int{0, 0}, order: "asc"},
-		)
-	}
-
-	reps := vlib.Pick(r, 1, 2)
-
-	r.Rule("third unit: for each configuration (sizes of the 2-3 blocks written at the same time on top of a chain with blocks in the permanent database and in temps x order of the importers inside the fill and the save phase x state cache x ticker body in between) the import batch (fill, save, merge in height order, MergeAllPermanent, cleanRemoved) is run natively the stated number of times; for each produced log EVERY prefix from the end of the setup to the end of the log, and every prefix ending in a write also with that write torn, is materialised, recovered with the real open path, read completely, closed, reopened and read completely again; " +
+	r.Rule("third unit: for each configuration (sizes of the 2-3 blocks written at the same time on top of a chain with blocks in the permanent database and in temps x order of the importers inside the fill and the save phase x state cache x ticker body in between x journal-only or 64 KiB write buffer x with/without the final MergeAllPermanent + cleanRemoved) the import batch (fill, save, merge in height order) is run natively; for the produced log EVERY prefix from the end of the setup to the end of the log, and every prefix ending in a write also with that write torn, is materialised, recovered with the real open path, read completely, closed, reopened and read completely again " +
+		"(a configuration with s slices is s work items: each produces the log itself and checks every s-th crash point; they add up to every prefix of one log when the s logs have the same operation sequence, i.e. when 'import_log_signature_min:<configuration>' equals '..._max:<configuration>'); " +
 		"non-trivial = distinct (configuration, phase of the crash point, torn, visible height, kind of the last operation)")
 	r.Assume("third unit: the importers of one batch run concurrently in the real ImportBlocks; here their calls are serialised in the stated fixed orders (whole importers ascending / descending, or 128-state chunks round robin), not every interleaving of their flushes; a crash during the recovery itself (a second crash while the startup cleaner runs) is not enumerated")
-	r.Set("import_repetitions_per_configuration", reps)
 	r.Set("import_configurations", len(configs))
 
 	rid, replaying := r.Replaying()
@@ -306,7 +318,12 @@ func TestVerifC21I(t *testing.T) {
 			continue
 		}
 
-		for rep := 0; rep < reps; rep++ {
+		slices := cfg.slices
+		if slices < 1 {
+			slices = 1
+		}
+
+		for j := 0; j < slices; j++ {
 			item++
 
 			if !r.Mine(item) || r.Expired() {
@@ -316,8 +333,20 @@ func TestVerifC21I(t *testing.T) {
 			h := c21iProduce(env, cfg)
 
 			r.Add("logs_produced", 1)
+
 			r.State(cfg.name + "|log=" + h.logsig)
-			c21Run(r, env, h)
+
+			if slices > 1 {
+				// the slices of a configuration sit in different shards: min == max in the merged evidence says that
+				// all of them worked on the same log
+				sig, err := strconv.ParseInt(h.logsig[:12], 16, 64)
+				vfMust(err)
+
+				r.Max("import_log_signature_max:"+cfg.name, sig)
+				r.Min("import_log_signature_min:"+cfg.name, sig)
+			}
+
+			c21RunSlice(r, env, h, j, slices)
 		}
 	}
 }
